@@ -33,6 +33,7 @@ package region
 //@   loop 0: modifies nothing
 //@   loop 0: invariant 0 <= i && i <= need && 0 <= n && n <= 8388608
 //@   loop 0: invariant all32(s, 0, 16777472, n <= s && s < n + i ==> !r.sectors[s])
+//@   loop 0: decreases (8388864 - int64(n)) * 256 + int64(need) - int64(i)
 //@   ensures n >= 2 && n <= 8388608                                                  [@value]
 //@   ensures all32(s, 0, 16777472, n <= s && s < n + need ==> !r.sectors[s])        [@value]
 //@   modifies nothing                                                                [@frame]
